@@ -28,6 +28,7 @@ type cfg struct {
 	Inject   string // self-test: corrupt one recorded result
 	Summary  string
 	Witness  bool
+	AllTorn  bool
 }
 
 var (
@@ -48,6 +49,7 @@ type gen struct {
 	// noSMove: set histories without SMove (whose known deviation F-C06-2
 	// makes memory and log disagree, which Merge then turns into data loss)
 	noSMove bool
+	images  int
 }
 
 func pick(r *rand.Rand, xs []string) string { return xs[r.Intn(len(xs))] }
@@ -835,8 +837,20 @@ func main() {
 	flag.StringVar(&c.Mode, "mode", "any", "index mode")
 	flag.StringVar(&c.RW, "rw", "any", "rw mode")
 	flag.StringVar(&c.Summary, "summary", "", "write a JSON summary here")
+	flag.BoolVar(&c.AllTorn, "alltorn", false, "crash families: tear writes at every record-field boundary")
 	flag.BoolVar(&c.Witness, "witness", false, "run the known-finding witnesses of the family instead of random histories")
+	openImg := flag.String("openimage", "", "child mode: open this image directory and print what it serves")
+	imode := flag.Int("imode", 0, "")
+	irw := flag.Int("irw", 0, "")
+	iload := flag.Int("iload", 0, "")
+	iseg := flag.Int64("iseg", 256, "")
+	isync := flag.Bool("isync", false, "")
+	ids := flag.Bool("ids", false, "")
 	flag.Parse()
+	if *openImg != "" {
+		openImageMain(*openImg, *imode, *irw, *iload, *iseg, *isync, *ids)
+		return
+	}
 
 	rec, err := hx.NewRecorder(c.Out)
 	if err != nil {
@@ -846,7 +860,8 @@ func main() {
 	g := &gen{c: c, r: rand.New(rand.NewSource(c.Seed)), s: &hx.Sess{R: rec}}
 	writeSummary := func() {
 		if c.Summary != "" {
-			b, _ := json.Marshal(map[string]interface{}{"events": rec.N, "by_op": rec.Cnt, "histories": c.Hist, "panics": g.s.Panics})
+			b, _ := json.Marshal(map[string]interface{}{"events": rec.N, "by_op": rec.Cnt, "histories": c.Hist, "panics": g.s.Panics,
+				"nontrivial": map[string]int{"crash_images": g.images}})
 			os.WriteFile(c.Summary, b, 0644)
 		}
 	}
@@ -865,6 +880,21 @@ func main() {
 			g.histKV()
 		case "fill":
 			g.histFill()
+		case "crash": // C10: every structure, process crash at every mutation point
+			g.histCrash(crashOpts{kinds: []string{"kv", "list", "set", "zset"}, sameMs: true, allTorn: g.c.AllTorn})
+		case "crashkv":
+			g.histCrash(crashOpts{kinds: []string{"kv"}, sameMs: true, allTorn: g.c.AllTorn})
+		case "power": // C11
+			g.histCrash(crashOpts{kinds: []string{"kv", "list", "set", "zset"}, power: true, allTorn: g.c.AllTorn})
+		case "powerkv":
+			g.histCrash(crashOpts{kinds: []string{"kv"}, power: true, allTorn: g.c.AllTorn})
+		case "crashmerge": // C16
+			g.histCrash(crashOpts{kinds: []string{"kv", "list", "set", "zset"}, merges: true, allTorn: g.c.AllTorn})
+		case "crashmergekv":
+			g.histCrash(crashOpts{kinds: []string{"kv"}, merges: true, allTorn: g.c.AllTorn})
+		case "crashmergeds":
+			g.noSMove = true
+			g.histCrash(crashOpts{kinds: []string{"kv", "set", "zset"}, merges: true, allTorn: g.c.AllTorn})
 		case "list", "set", "zset":
 			g.histDS(c.Family)
 		case "mixed": // C08: every structure, multi-operation transactions, reopen
